@@ -214,7 +214,8 @@ def run(rep, ctx):
     for qn, (want, why) in sorted(USES.items()):
         got = found.get(qn)
         if got is None:
-            raise AnalysisBroken("C10.U1: use site %s not found" % qn)
+            u1.fail("site|" + qn.replace("mp::", ""), "", "%s no longer consults %s (%s)" % (qn.replace("mp::", ""), sorted(want), why))
+            continue
         u1.check(got == want, "site|" + qn.replace("mp::", ""), "", "%s uses %s (%s)" % (qn.replace("mp::", ""), sorted(want), why),
                  "%s now classifies with %s instead of %s: %s - codes outside that class are treated as members of it" % (qn.replace("mp::", ""), sorted(got), sorted(want), why))
     for qn in sorted(set(found) - set(USES)):
